@@ -210,6 +210,235 @@ func stressRequests(rng *rand.Rand, nRandom int) []*Request {
 	return out
 }
 
+// danglingRequests: well-formed descriptors whose annotations refer to something that is not there —
+// a path variable without a request field of that name, a query annotation that names nothing usable,
+// unwrap / flatten / oneof_config / enum annotations over types that are not part of the generated
+// files (imported and not generated, well-known types, other packages), RPCs whose request or
+// response type lives elsewhere. A plugin has to answer such a request with files or with an error
+// message; it must not crash. One dangling reference per request, so that a plugin that refuses one
+// shape does not hide what it does with the next. tier quick: two verbs per path shape.
+func danglingRequests(tier string) []*Request {
+	var out []*Request
+	n := 0
+	one := func(tag string, build func(id, pkg string, f *File, r *Request)) {
+		n++
+		id := fmt.Sprintf("c16dg%d", n)
+		pkg := id + ".v1"
+		f := &File{Messages: []*Message{M("Res", F("ok", 1, "bool"))}}
+		r := OneFile(id, pkg, f)
+		r.Tags = []string{"c16", "dangling", tag}
+		build(id, pkg, f, r)
+		out = append(out, r)
+	}
+	verbs := []string{"GET", "POST", "PUT", "DELETE", "PATCH"}
+	bodyVerb := func(v string) bool { return v == "POST" || v == "PUT" || v == "PATCH" }
+
+	// ---- (A) path variables -------------------------------------------------------------------
+	type pathShape struct {
+		tag, path, base string
+		fields          func(pkg string) []*Field
+		aux             func(pkg string) []*Message
+	}
+	user := func(pkg string) []*Message { return []*Message{M("User", F("id", 1, "string"), F("name", 2, "string"))} }
+	shapes := []pathShape{
+		{"path-typo", "/users/{user_id}", "/api", func(string) []*Field { return []*Field{F("id", 1, "string")} }, nil},
+		{"path-json-name", "/users/{userId}", "/api", func(string) []*Field { return []*Field{F("user_id", 1, "string")} }, nil},
+		{"path-go-name", "/users/{UserId}", "", func(string) []*Field { return []*Field{F("user_id", 1, "string")} }, nil},
+		{"path-dotted", "/users/{user.id}", "/api", func(pkg string) []*Field { return []*Field{F("user", 1, "", Msg(pkg+".User"))} }, user},
+		{"path-nested-field", "/users/{name}", "/api", func(pkg string) []*Field { return []*Field{F("user", 1, "", Msg(pkg+".User"))} }, user},
+		{"path-no-fields-at-all", "/users/{id}/{name}", "/api", func(string) []*Field { return nil }, nil},
+		{"path-second-missing", "/users/{id}/posts/{post_id}", "/api", func(string) []*Field { return []*Field{F("id", 1, "string")} }, nil},
+		{"path-first-missing", "/users/{uid}/posts/{id}", "", func(string) []*Field { return []*Field{F("id", 1, "int64")} }, nil},
+		{"path-empty-variable", "/users/{}", "/api", func(string) []*Field { return []*Field{F("id", 1, "string")} }, nil},
+		{"path-unclosed", "/users/{id", "/api", func(string) []*Field { return []*Field{F("id", 1, "string")} }, nil},
+		{"path-stray-close", "/users/id}/x", "/api", func(string) []*Field { return []*Field{F("id", 1, "string")} }, nil},
+		{"path-spaces", "/users/{ id }", "/api", func(string) []*Field { return []*Field{F("id", 1, "string")} }, nil},
+		{"path-google-style", "/users/{id=*}/x/{name=**}", "/api", func(string) []*Field { return []*Field{F("id", 1, "string"), F("name", 2, "string")} }, nil},
+		{"path-regex-style", "/users/{id:[0-9]+}", "/api", func(string) []*Field { return []*Field{F("id", 1, "string")} }, nil},
+		{"path-nested-braces", "/users/{{id}}", "/api", func(string) []*Field { return []*Field{F("id", 1, "string")} }, nil},
+		{"path-variable-twice", "/users/{id}/again/{id}", "/api", func(string) []*Field { return []*Field{F("id", 1, "string")} }, nil},
+		{"path-variable-in-base", "/items/{id}", "/t/{tenant}", func(string) []*Field { return []*Field{F("id", 1, "string")} }, nil},
+		{"path-only-in-base", "/items", "/t/{tenant}/{region}", func(string) []*Field { return []*Field{F("id", 1, "string", Query("id", false))} }, nil},
+		{"path-partial-segment", "/users/u-{id}.json", "/api", func(string) []*Field { return []*Field{F("id", 1, "string")} }, nil},
+		{"path-case-differs", "/users/{ID}", "/api", func(string) []*Field { return []*Field{F("id", 1, "string")} }, nil},
+		{"path-names-oneof", "/users/{choice}", "/api", func(string) []*Field {
+			return []*Field{F("a", 1, "string", InOneof("choice")), F("b", 2, "int32", InOneof("choice"))}
+		}, nil},
+		{"path-names-map-entry-field", "/users/{key}", "/api", func(string) []*Field { return []*Field{F("labels", 1, "string", MapOf("string"))} }, nil},
+		{"path-unicode", "/users/{идент}", "/api", func(string) []*Field { return []*Field{F("id", 1, "string")} }, nil},
+	}
+	for si, sh := range shapes {
+		sh := sh
+		for vi, v := range verbs {
+			if tier != "thorough" && vi != si%5 && vi != (si+2)%5 {
+				continue
+			}
+			v := v
+			one(sh.tag, func(id, pkg string, f *File, r *Request) {
+				fs := sh.fields(pkg)
+				if bodyVerb(v) {
+					fs = append(fs, F("note", 20, "string"))
+				}
+				m := M("Req", fs...)
+				if sh.tag == "path-names-oneof" {
+					m.WithOneofs(&Oneof{Name: "choice"})
+				}
+				f.Messages = append(f.Messages, m)
+				if sh.aux != nil {
+					f.Messages = append(f.Messages, sh.aux(pkg)...)
+				}
+				f.Services = []*Service{Svc("Users", sh.base, RPC("Call", pkg+".Req", pkg+".Res", v, sh.path))}
+			})
+		}
+	}
+
+	// ---- (B) query annotations that name nothing usable -----------------------------------------
+	qshapes := []struct {
+		tag    string
+		fields func(pkg string) []*Field
+		aux    func(pkg string) []*Message
+		oneofs []*Oneof
+	}{
+		{"query-empty-name", func(string) []*Field { return []*Field{F("page", 1, "int32", Query("", true))} }, nil, nil},
+		{"query-on-message", func(pkg string) []*Field { return []*Field{F("user", 1, "", Msg(pkg+".User"), Query("user", false))} }, user, nil},
+		{"query-on-repeated-message", func(pkg string) []*Field { return []*Field{F("users", 1, "", Msg(pkg+".User"), Rep(), Query("u", true))} }, user, nil},
+		{"query-on-map", func(string) []*Field { return []*Field{F("labels", 1, "string", MapOf("string"), Query("labels", false))} }, nil, nil},
+		{"query-on-timestamp", func(string) []*Field { return []*Field{F("since", 1, "", Msg(Timestamp), Query("since", false))} }, nil, nil},
+		{"query-on-bytes-and-enum", func(pkg string) []*Field {
+			return []*Field{F("raw", 1, "bytes", Query("raw", false)), F("color", 2, "", EnumT(pkg+".Color"), Rep(), Query("color", true))}
+		}, nil, nil},
+		{"query-on-oneof-member", func(string) []*Field {
+			return []*Field{F("a", 1, "string", InOneof("pick"), Query("a", false)), F("b", 2, "int64", InOneof("pick"), Query("b", true))}
+		}, nil, []*Oneof{{Name: "pick"}}},
+		{"query-on-optional", func(string) []*Field { return []*Field{F("a", 1, "string", Opt(), Query("a", true)), F("n", 2, "uint64", Opt(), Query("n", false))} }, nil, nil},
+		{"query-name-odd", func(string) []*Field {
+			return []*Field{F("a", 1, "string", Query("a b&c=d", false)), F("b", 2, "string", Query("{id}", false)), F("c", 3, "string", Query("\"quoted\\", false)), F("d", 4, "string", Query("käse", true))}
+		}, nil, nil},
+		{"query-name-duplicate", func(string) []*Field { return []*Field{F("a", 1, "string", Query("q", false)), F("b", 2, "int32", Query("q", true))} }, nil, nil},
+		{"query-name-is-other-field", func(string) []*Field { return []*Field{F("a", 1, "string", Query("b", false)), F("b", 2, "string", Query("a", false))} }, nil, nil},
+	}
+	for qi, qs := range qshapes {
+		qs := qs
+		v := "GET"
+		if qi%3 == 1 {
+			v = "DELETE"
+		} else if qi%3 == 2 {
+			v = "POST"
+		}
+		one(qs.tag, func(id, pkg string, f *File, r *Request) {
+			m := M("Req", qs.fields(pkg)...).WithOneofs(qs.oneofs...)
+			f.Messages = append(f.Messages, m)
+			if qs.aux != nil {
+				f.Messages = append(f.Messages, qs.aux(pkg)...)
+			}
+			f.Enums = append(f.Enums, E("Color", "COLOR_UNSPECIFIED", "COLOR_RED"))
+			f.Services = []*Service{Svc("Q", "/q", RPC("Call", pkg+".Req", pkg+".Res", v, "/call"))}
+		})
+	}
+	// a query annotation on a field of the RESPONSE type, and on a message no RPC uses
+	one("query-on-response-field", func(id, pkg string, f *File, r *Request) {
+		f.Messages = append(f.Messages, M("Req", F("id", 1, "string")), M("Out", F("page", 1, "int32", Query("page", true))), M("Unused", F("x", 1, "string", Query("x", true))))
+		f.Services = []*Service{Svc("Q", "/q", RPC("Call", pkg+".Req", pkg+".Out", "GET", "/call/{id}"))}
+	})
+
+	// ---- (C) annotations over types that are not in the generated files ---------------------------
+	// lib: imported and NOT generated; other: imported, generated, another package
+	withLib := func(tag string, generateLib, otherPkg bool, build func(pkg, lib string, f *File)) {
+		one(tag, func(id, pkg string, f *File, r *Request) {
+			libPkg := pkg
+			goPkg := f.GoPackage
+			if otherPkg {
+				libPkg = id + "lib.v1"
+				goPkg = fmt.Sprintf("verifgen/%slib;%slib", id, id)
+			}
+			status := &Enum{Name: "LibStatus", Values: []*EnumValue{{Name: "LIB_STATUS_UNSPECIFIED", Number: 0}, {Name: "LIB_STATUS_ON", Number: 1, EnumValue: Str("on")}}}
+			lib := &File{Path: id + "lib/types.proto", Package: libPkg, GoPackage: goPkg, Generate: generateLib, Enums: []*Enum{status},
+				Messages: []*Message{
+					M("LibItem", F("sku", 1, "string"), F("qty", 2, "int64", I64("NUMBER")), F("made_at", 3, "", Msg(Timestamp), TsFmt("UNIX_SECONDS"))),
+					M("LibList", F("items", 1, "", Msg(libPkg+".LibItem"), Rep(), Unwrap())),
+					M("LibMap", F("by_sku", 1, "", Msg(libPkg+".LibList"), MapOf("string"), Unwrap())),
+					M("LibNode", F("v", 1, "string"), F("next", 2, "", Msg(libPkg+".LibNode"))),
+					M("LibReq", F("id", 1, "string"), F("page", 2, "int32", Query("page", false))),
+				}}
+			f.Imports = append(f.Imports, lib.Path)
+			build(pkg, libPkg, f)
+			r.Files = []*File{lib, f}
+		})
+	}
+	for _, mode := range []struct {
+		sfx                string
+		generate, otherPkg bool
+	}{{"imported", false, false}, {"imported-other-package", false, true}, {"generated-other-package", true, true}} {
+		mode := mode
+		t := func(s string) string { return s + "/" + mode.sfx }
+		withLib(t("flatten-foreign-type"), mode.generate, mode.otherPkg, func(pkg, lib string, f *File) {
+			f.Messages = append(f.Messages, M("Req", F("id", 1, "string"), F("item", 2, "", Msg(lib+".LibItem"), Flatten(true)), F("other", 3, "", Msg(lib+".LibItem"), Flatten(true), FlattenPrefix("o_"))))
+			f.Services = []*Service{Svc("S", "/s", RPC("Call", pkg+".Req", pkg+".Req", "POST", "/c"))}
+		})
+		withLib(t("unwrap-foreign-element"), mode.generate, mode.otherPkg, func(pkg, lib string, f *File) {
+			f.Messages = append(f.Messages, M("Req", F("items", 1, "", Msg(lib+".LibItem"), Rep(), Unwrap())),
+				M("Holder", F("by_key", 1, "", Msg(lib+".LibList"), MapOf("string")), F("direct", 2, "", Msg(lib+".LibMap")), F("n", 3, "int32")))
+			f.Services = []*Service{Svc("S", "/s", RPC("Call", pkg+".Req", pkg+".Holder", "POST", "/c"))}
+		})
+		withLib(t("unwrap-map-of-foreign-unwrap"), mode.generate, mode.otherPkg, func(pkg, lib string, f *File) {
+			f.Messages = append(f.Messages, M("Req", F("id", 1, "string")), M("Root", F("by_key", 1, "", Msg(lib+".LibList"), MapOf("string"), Unwrap())))
+			f.Services = []*Service{Svc("S", "/s", RPC("Call", pkg+".Req", pkg+".Root", "POST", "/c"))}
+		})
+		withLib(t("oneof-foreign-variants"), mode.generate, mode.otherPkg, func(pkg, lib string, f *File) {
+			f.Messages = append(f.Messages,
+				M("Req", F("id", 1, "string"), F("item", 2, "", Msg(lib+".LibItem"), InOneof("payload")), F("node", 3, "", Msg(lib+".LibNode"), InOneof("payload"), OneofVal("n"))).WithOneofs(&Oneof{Name: "payload", HasConfig: true, Discriminator: "kind", Flatten: true}),
+				M("Plain", F("id", 1, "string"), F("item", 2, "", Msg(lib+".LibItem"), InOneof("payload")), F("list", 3, "", Msg(lib+".LibList"), InOneof("payload"))).WithOneofs(&Oneof{Name: "payload", HasConfig: true, Discriminator: "type"}))
+			f.Services = []*Service{Svc("S", "/s", RPC("Call", pkg+".Req", pkg+".Plain", "POST", "/c"))}
+		})
+		withLib(t("enum-foreign"), mode.generate, mode.otherPkg, func(pkg, lib string, f *File) {
+			f.Messages = append(f.Messages, M("Req", F("s", 1, "", EnumT(lib+".LibStatus")), F("n", 2, "", EnumT(lib+".LibStatus"), EnumEnc("STRING")), F("l", 3, "", EnumT(lib+".LibStatus"), Rep()),
+				F("m", 4, "", EnumT(lib+".LibStatus"), MapOf("string")), F("o", 5, "", EnumT(lib+".LibStatus"), Opt(), Nullable(true))))
+			f.Services = []*Service{Svc("S", "/s", RPC("Call", pkg+".Req", pkg+".Req", "POST", "/c"))}
+		})
+		withLib(t("rpc-types-foreign"), mode.generate, mode.otherPkg, func(pkg, lib string, f *File) {
+			f.Services = []*Service{Svc("S", "/s", RPC("Get", lib+".LibReq", lib+".LibMap", "GET", "/c/{id}"), RPC("Put", lib+".LibItem", lib+".LibNode", "PUT", "/c/{sku}"),
+				RPC("Plain", lib+".LibList", lib+".LibList", "", ""))}
+		})
+		withLib(t("empty-behavior-nullable-foreign"), mode.generate, mode.otherPkg, func(pkg, lib string, f *File) {
+			f.Messages = append(f.Messages, M("Req", F("keep", 1, "", Msg(lib+".LibItem"), Empty("PRESERVE")), F("nul", 2, "", Msg(lib+".LibNode"), Empty("NULL")), F("omit", 3, "", Msg(lib+".LibList"), Empty("OMIT"))))
+			f.Services = []*Service{Svc("S", "/s", RPC("Call", pkg+".Req", pkg+".Req", "POST", "/c"))}
+		})
+	}
+	// well-known types where a user message is expected
+	wkts := []string{Timestamp, "google.protobuf.Duration", "google.protobuf.Empty", "google.protobuf.Any", "google.protobuf.Struct", "google.protobuf.Value", "google.protobuf.ListValue", "google.protobuf.FieldMask", "google.protobuf.StringValue", "google.protobuf.Int64Value"}
+	for _, w := range wkts {
+		w := w
+		short := w[strings.LastIndex(w, ".")+1:]
+		one("flatten-wkt/"+short, func(id, pkg string, f *File, r *Request) {
+			f.Messages = append(f.Messages, M("Req", F("id", 1, "string"), F("w", 2, "", Msg(w), Flatten(true), FlattenPrefix("w_"))))
+			f.Services = []*Service{Svc("S", "/s", RPC("Call", pkg+".Req", pkg+".Req", "POST", "/c"))}
+		})
+		one("unwrap-and-oneof-wkt/"+short, func(id, pkg string, f *File, r *Request) {
+			f.Messages = append(f.Messages, M("Req", F("ws", 1, "", Msg(w), Rep(), Unwrap())), M("ByKey", F("m", 1, "", Msg(w), MapOf("string"), Unwrap())),
+				M("Ev", F("id", 1, "string"), F("w", 2, "", Msg(w), InOneof("p")), F("t", 3, "string", InOneof("p"))).WithOneofs(&Oneof{Name: "p", HasConfig: true, Discriminator: "kind"}),
+				M("FlatEv", F("id", 1, "string"), F("w", 2, "", Msg(w), InOneof("p"))).WithOneofs(&Oneof{Name: "p", HasConfig: true, Discriminator: "kind", Flatten: true}),
+				M("Emp", F("w", 1, "", Msg(w), Empty("NULL")), F("x", 2, "", Msg(w), Empty("OMIT"))))
+			f.Services = []*Service{Svc("S", "/s", RPC("A", pkg+".Req", pkg+".ByKey", "POST", "/a"), RPC("B", pkg+".Ev", pkg+".FlatEv", "POST", "/b"), RPC("C", pkg+".Emp", pkg+".Emp", "POST", "/c"))}
+		})
+	}
+	for _, w := range []string{"google.protobuf.Empty", Timestamp, "google.protobuf.Struct", "google.protobuf.Any"} {
+		w := w
+		short := w[strings.LastIndex(w, ".")+1:]
+		one("rpc-types-wkt/"+short, func(id, pkg string, f *File, r *Request) {
+			f.Messages = append(f.Messages, M("Req", F("id", 1, "string")))
+			f.Imports = append(f.Imports, wktPath(w))
+			f.Services = []*Service{Svc("S", "/s", RPC("In", w, pkg+".Res", "POST", "/in"), RPC("Out", pkg+".Req", w, "DELETE", "/out/{id}"), RPC("Both", w, w, "PUT", "/both"), RPC("Get", w, w, "GET", "/get/{seconds}"))}
+		})
+	}
+	// headers that name nothing
+	one("headers-degenerate", func(id, pkg string, f *File, r *Request) {
+		f.Messages = append(f.Messages, M("Req", F("id", 1, "string")))
+		f.Services = []*Service{Svc("S", "/s", RPC("Call", pkg+".Req", pkg+".Res", "POST", "/c").WithHeaders(&Header{Name: "", Type: "string", Required: true}, &Header{Name: "X-1", Type: "no-such-type", Format: "no-such-format", Required: true},
+			&Header{Name: "X Bad Name", Type: "integer"}, &Header{Name: "x-dup"}, &Header{Name: "X-Dup", Required: true})).WithHeaders(&Header{Name: "x-dup", Type: "array"}, &Header{Name: "9", Type: "number", Example: "\"", Required: true})}
+	})
+	return out
+}
+
 type c16Variant struct {
 	plugin, param string
 	mock          bool
@@ -217,7 +446,7 @@ type c16Variant struct {
 
 var c16Variants = []c16Variant{
 	{"go-http", "paths=source_relative", false}, {"go-http", "paths=source_relative,generate_mock=true", true},
-	{"go-http", "paths=import", false}, {"go-client", "paths=source_relative", false},
+	{"go-http", "paths=import", false}, {"go-client", "paths=source_relative", false}, {"go-client", "paths=import", false},
 	{"ts-client", "", false}, {"ts-server", "", false},
 	{"openapiv3", "", false}, {"openapiv3", "format=json", false}, {"openapiv3", "format=yaml", false}, {"openapiv3", "format=bogus", false},
 }
@@ -230,6 +459,8 @@ func CheckC16(run *Run) {
 		nRandom = 120
 	}
 	reqs := stressRequests(rand.New(rand.NewSource(run.Seed+16)), nRandom)
+	nStress := len(reqs)
+	reqs = append(reqs, danglingRequests(run.Tier)...)
 	type res struct {
 		guarded, mock bool
 		detail        []string
@@ -239,7 +470,9 @@ func CheckC16(run *Run) {
 	results := make([]*res, len(reqs))
 	builts := make([]*Built, len(reqs))
 	var wg sync.WaitGroup
-	sem := make(chan struct{}, 6)
+	var ansMu sync.Mutex
+	answers := map[string]map[string]int{} // "<plugin>[<param>]" -> answer class -> count
+	sem := make(chan struct{}, 10)
 	for i, r := range reqs {
 		wg.Add(1)
 		go func(i int, r *Request) {
@@ -265,6 +498,17 @@ func CheckC16(run *Run) {
 				if pr.Exit == "crash" && pr.Error == "exit status 1" && !strings.Contains(pr.Stderr, "panic:") && !strings.Contains(pr.Stderr, "fatal error:") && !strings.Contains(pr.Stderr, "goroutine ") {
 					answered = true // protogen's way of refusing a request: one diagnostic line on stderr, exit 1
 				}
+				cls := pr.Exit
+				if answered && pr.Exit == "crash" {
+					cls = "refused-by-protogen"
+				}
+				ansMu.Lock()
+				k := v.plugin + "[" + v.param + "]"
+				if answers[k] == nil {
+					answers[k] = map[string]int{}
+				}
+				answers[k][cls]++
+				ansMu.Unlock()
 				if pr.WallMs > out.maxMs {
 					out.maxMs = pr.WallMs
 				}
@@ -296,9 +540,18 @@ func CheckC16(run *Run) {
 		}
 		o := results[i]
 		obs := map[string]any{"guarded_walk_terminates": o.guarded, "mock_walk_terminates": o.mock}
-		cr := &CaseResult{ID: r.ID, Family: "plugin-termination",
-			Input: map[string]any{"schema": r.ID, "messages": n, "variants": len(c16Variants), "max_wall_ms": o.maxMs, "max_rss_kb": o.maxRSS},
-			Obs:   obs, OracleHolds: o.guarded && o.mock, OracleNote: strings.Join(o.detail, " | "), NonTrivial: true, Features: []string{"stress"}}
+		fam, feats := "plugin-termination", []string{"stress"}
+		input := map[string]any{"schema": r.ID, "messages": n, "variants": len(c16Variants), "max_wall_ms": o.maxMs, "max_rss_kb": o.maxRSS}
+		if i >= nStress {
+			fam, feats = "dangling-reference", []string{"dangling"}
+			if len(r.Tags) > 2 {
+				feats = append(feats, "dangling:"+strings.SplitN(r.Tags[2], "/", 2)[0])
+				input["dangling"] = r.Tags[2]
+			}
+			input["request"] = r
+		}
+		cr := &CaseResult{ID: r.ID, Family: fam, Input: input,
+			Obs:   obs, OracleHolds: o.guarded && o.mock, OracleNote: strings.Join(o.detail, " | "), NonTrivial: true, Features: feats}
 		crs = append(crs, cr)
 		ccs = append(ccs, CoqCase{Term: fmt.Sprintf("(%s, [%s])", g, strings.Join(rs, "; ")), Obs: obs})
 	}
@@ -319,6 +572,7 @@ func CheckC16(run *Run) {
 		run.Results = append(run.Results, cr)
 	}
 	run.Extra["plugin_runs"] = len(reqs) * len(c16Variants)
+	run.Extra["answers_by_variant"] = answers
 	run.Extra["bounds"] = "each plugin process: 10 s wall clock, 1 GiB address space"
 	run.Finish()
 }
